@@ -1231,6 +1231,14 @@ def reuse_history(case, tmpdir):
 
 def run_job(job):
     """Everything one job asks for, in this process: direct calls, histories, reuse histories (module state watched)."""
+    import time
+    t0 = time.time()
+    result = _run_job(job)
+    result['seconds'] = round(time.time() - t0, 3)
+    return result
+
+
+def _run_job(job):
     result = {'histories': [], 'module_mutated': []}
     if 'direct' in job:
         result['direct'] = run_direct(job['direct']['fn'], job['direct']['cases'])
